@@ -74,7 +74,7 @@ class _SimParallelCall:
         self.kwargs = kwargs
 
     def __call__(self, iterable):
-        import joblib.externals.cloudpickle as cp
+        import cloudpickle as cp
         import pickle
 
         f = self.f
